@@ -616,39 +616,40 @@ Proof.
     apply (supported_date_serial y 1 1 V1) in R1. destruct R1 as [_ [(Hy & Hm1 & _) | Hy]]; [lia | exact Hy].
 Qed.
 
-(* the model of DATE can abort: chrono's `NaiveDate + Months` panics before the range check *)
-Theorem fn_date_can_panic :
-  fn_date 2000 4000000 1 = FPanic /\ fn_date 2000 1 100000000 = FPanic /\
-  fn_date 1900 (-4000000) 1 = FPanic /\ fn_date 9999 12 (-100000000) = FPanic.
-Proof. vm_compute. repeat split; reflexivity. Qed.
-
-(* ... and only for month/day arguments of astronomic size *)
-Theorem fn_date_no_panic y m d :
-  -3000000 <= m <= 3000000 -> -90000000 <= d <= 90000000 -> fn_date y m d <> FPanic.
+(* DATE never aborts: for ALL integer arguments it returns a serial of the supported range or
+   the out-of-range error (chrono's checked additions; None becomes #NUM!) *)
+Lemma fn_date_cases y m d : fn_date y m d = FErrNum \/ exists s, fn_date y m d = FNum s.
 Proof.
-  intros Hm Hd. unfold fn_date.
-  destruct (y <? 0) eqn:E0; [discriminate|].
-  destruct ((y =? 1899) && (m =? 12) && (d =? 31)); [discriminate|].
-  destruct (chrono_year_ok y) eqn:Ecy; [|discriminate]. cbn [negb].
-  destruct (in_serial_range (serial_of_days (days_of_civil y 1 1))) eqn:R1; [|discriminate].
-  cbn [negb].
-  apply in_serial_range_spec in R1.
-  assert (V1 : valid_date y 1 1) by (split; [lia|]; pose proof (days_in_month_bounds y 1); lia).
-  apply (supported_date_serial y 1 1 V1) in R1.
-  assert (Hy : 1899 <= y <= 9999) by (destruct R1 as [_ [(Hy & _) | Hy]]; lia).
-  unfold add_months_jan1.
-  replace (chrono_year_ok ((y * 12 + (m - 1)) / 12)) with true.
-  2:{ symmetry. unfold chrono_year_ok, CHRONO_MIN_YEAR, CHRONO_MAX_YEAR.
-      apply andb_true_iff; split; apply Z.leb_le; dlia. }
-  destruct (in_serial_range (serial_of_days (days_of_civil ((y * 12 + (m - 1)) / 12) ((y * 12 + (m - 1)) mod 12 + 1) 1)))
-    eqn:R2; [|discriminate].
-  cbn [negb]. apply in_serial_range_spec in R2. unfold serial_of_days, EXCEL_DATE_BASE in R2.
-  unfold add_days. destruct chrono_days_bounds as [-> ->].
-  match goal with |- context [(?a <=? ?b) && (?c <=? ?e)] =>
-    replace ((a <=? b) && (c <=? e)) with true
-      by (symmetry; apply andb_true_iff; split; apply Z.leb_le; lia) end.
-  destruct (in_serial_range _); discriminate.
+  unfold fn_date.
+  destruct (y <? 0); [left; reflexivity|].
+  destruct ((y =? 1899) && (m =? 12) && (d =? 31)); [right; eexists; reflexivity|].
+  destruct (negb (chrono_year_ok y)); [left; reflexivity|].
+  destruct (negb (in_serial_range (serial_of_days (days_of_civil y 1 1)))); [left; reflexivity|].
+  destruct (add_months_jan1 y (m - 1)) as [[y2 m2]|]; [|left; reflexivity].
+  destruct (negb (in_serial_range (serial_of_days (days_of_civil y2 m2 1)))); [left; reflexivity|].
+  destruct (add_days (days_of_civil y2 m2 1) (d - 1)) as [rd3|]; [|left; reflexivity].
+  destruct (negb (in_serial_range (serial_of_days rd3))); [left; reflexivity|].
+  right; eexists; reflexivity.
 Qed.
+
+Theorem fn_date_total y m d :
+  (exists s, fn_date y m d = FNum s /\ 1 <= s <= 2958465) \/ fn_date y m d = FErrNum.
+Proof.
+  destruct (fn_date_cases y m d) as [E | [s E]]; [right; exact E|].
+  left. exists s. split; [exact E|]. exact (proj1 (fn_date_spec y m d s E)).
+Qed.
+
+Corollary fn_date_never_panics y m d : fn_date y m d <> FPanic /\ fn_date y m d <> FErrValue.
+Proof.
+  destruct (fn_date_cases y m d) as [E | [s E]]; rewrite E; split; discriminate.
+Qed.
+
+(* the arguments on which the code used to abort (before commit 4f81daf) are plain errors *)
+Theorem fn_date_astronomic :
+  fn_date 2000 4000000 1 = FErrNum /\ fn_date 2000 1 100000000 = FErrNum /\
+  fn_date 1900 (-4000000) 1 = FErrNum /\ fn_date 9999 12 (-100000000) = FErrNum /\
+  fn_date 2000 (-2147483648) 1 = FErrNum /\ fn_date 2000 1 (-2147483648) = FErrNum.
+Proof. vm_compute. repeat split; reflexivity. Qed.
 
 (* ---- the "yyyy-mm-dd" text and the typed ISO date --------------------------------------------------- *)
 
